@@ -18,6 +18,12 @@ RULE = ("random bait tables on 1..3 chromosomes drawn from canonical and non-can
         "x average sizes (1..150000, the defaults, span/k) x minimum sizes (None, 0, avg/16, floor(3/4 avg) and "
         "its successor, avg, 1.4 avg, random); do_target with/without --split, --short-names (accession-style "
         "labels sharing names between consecutive rows) and --annotate (BED written to a scratch directory). "
+        "About 16 % of the random cases (tag cli-*) reach the real code through the command line instead of "
+        "do_target / do_antitarget: BED files in a scratch directory, `cnvkit.py target [--split] [-a|--avg-size N] "
+        "[--annotate F] [--short-names] -o|--output` (run twice: with and without the labelling options) and "
+        "`cnvkit.py antitarget [-g|--access F] [-a|--avg-size N] [-m|--min-size N] -o|--output` with integer sizes, "
+        "--avg-size / --min-size / --access left out when the case has the parser's default (200/0.75, 150000, "
+        "None, None); the output BED file is read back and must equal the table handed to the writer. "
         "non-trivial = the model output has at least one bin and (antitarget) some target lies on an accessible "
         "contig or (target) at least two baits interact or a bait is split; distinct = distinct case by hash")
 EXHAUSTIVE = {"quick": False, "thorough": False}
@@ -248,12 +254,75 @@ def corpus():
     ]
 
 
+CLI_SHARE = 0.16
+TARGET_AVG_DEFAULT = 200 / 0.75  # the parser's default of `target --avg-size`
+ANTI_AVG_DEFAULT = 150000  # the parser's default of `antitarget --avg-size`
+
+
+def _cli_variant(case):
+    """the same case routed through `cnvkit.py target` / `cnvkit.py antitarget` (or None: keep the API path).
+    The choice and the adjustments are drawn from a private stream seeded by the case itself, so the main random
+    stream -- and with it every API case -- is what it would be without the command-line share.
+    The command line takes integer sizes only and its files cannot carry trailing blanks in a label, so the
+    case is adjusted to what a BED file + argv can express; `cli_opts` records the spelling of each option
+    (None = option left out: the parser's default has to reach the function)."""
+    import json
+    import random
+    sub = random.Random("c12cli:" + json.dumps(case, sort_keys=True))
+    if sub.random() >= CLI_SHARE:
+        return None
+    i = dict(case["in"])
+    opts = {}
+    if case["op"] == "antitarget":
+        avg = i["avg_f"]
+        big = max([r[2] for r in i["tg"] + (i["acc"] or [])] or [0]) >= 60000
+        if sub.random() < (0.3 if big else 0.05):
+            avg = ANTI_AVG_DEFAULT
+            if i["min"] not in (None, 0) and sub.random() < 0.7:  # keep the minimum in the same relation to avg
+                i["min"] = sub.choice([avg // 16, (3 * avg) // 4, (3 * avg) // 4 + 1, sub.randint(1, avg)])
+        if not isinstance(avg, int) or avg <= 0:
+            return None
+        i["avg"], i["avg_f"] = frac(avg), avg
+        opts["avg"] = None if avg == ANTI_AVG_DEFAULT and sub.random() < 0.75 else sub.choice(["-a", "--avg-size"])
+        opts["min"] = None if i["min"] is None else sub.choice(["-m", "--min-size"])
+        opts["access"] = None if i["acc"] is None else sub.choice(["-g", "--access"])
+        if i["acc"]:  # a table read from a file is sorted (the renamed "x..." contigs of the generator are not)
+            i["acc"] = T.sort_rows(i["acc"])
+        # NOTE `antitarget` without -o raises AttributeError (args.interval does not exist):
+        # /verif/proposed_fixes/C12-cli-antitarget-default-output.md -- every generated command line carries -o
+        opts["out"] = "-o" if sub.random() < 0.5 else "--output"
+    else:
+        avg = i["avg_f"]
+        k = sub.random()
+        if k < 0.3 or not avg >= 0.5:
+            avg = TARGET_AVG_DEFAULT
+        elif float(avg) != int(avg):
+            avg = max(1, int(round(avg)))
+        else:
+            avg = int(avg)
+        i["avg"], i["avg_f"] = frac(avg), avg
+        if avg == TARGET_AVG_DEFAULT:
+            opts["avg"] = None
+        else:
+            opts["avg"] = sub.choice(["-a", "--avg-size"])
+        if not i["split"] and avg != TARGET_AVG_DEFAULT and sub.random() < 0.5:
+            # without --split the size is irrelevant: leave it out, the model gets the default
+            i["avg"], i["avg_f"], opts["avg"] = frac(TARGET_AVG_DEFAULT), TARGET_AVG_DEFAULT, None
+        # a BED file cannot carry a trailing blank / an empty label
+        i["baits"] = [[r[0], r[1], r[2], r[3].strip() or "-"] for r in i["baits"]]
+        opts["out"] = "-o" if sub.random() < 0.5 else "--output"
+    i["cli"] = True
+    i["cli_opts"] = opts
+    return {"op": case["op"], "tag": "cli-" + case["tag"], "in": i}
+
+
 def gen_cases(rng, tier):
     n = {"quick": 1500, "thorough": 12000, "search": 1500}[tier]
     cases = []
     for i in range(n):
-        cases.append(_anti_case(rng, tier if tier == "search" else "random") if i % 5 < 3
-                     else _target_case(rng, tier if tier == "search" else "random"))
+        c = (_anti_case(rng, tier if tier == "search" else "random") if i % 5 < 3
+             else _target_case(rng, tier if tier == "search" else "random"))
+        cases.append(_cli_variant(c) or c)
     return cases
 
 
@@ -261,9 +330,123 @@ def gen_cases(rng, tier):
 # real code
 
 
+def _write_bed(path, rows, ncol=4):
+    with open(path, "w") as f:
+        for r in rows:
+            f.write("\t".join(str(x) for x in r[:ncol]) + "\n")
+
+
+def _read_bed_plain(path):
+    """the written BED file, split on tabs (no reader of cnvkit involved)"""
+    rows = []
+    with open(path) as f:
+        for ln in f:
+            p = ln.rstrip("\n").split("\t")
+            if len(p) != 4:
+                raise AssertionError(f"output line with {len(p)} columns: {ln!r}")
+            rows.append([p[0], int(p[1]), int(p[2]), p[3]])
+    return rows
+
+
+def _cnvkit(argv, fout):
+    """what `cnvkit.py <argv>` does, in-process; returns the rows of the BED file it wrote to `fout`, after
+    checking that they are the table the command handed to the writer (as bed4)"""
+    import logging
+    from cnvlib import commands
+    from skgenome import tabio
+    captured = []
+
+    class _Tab:
+        def __getattr__(self, name):
+            return getattr(tabio, name)
+
+        def write(self, garr, outfname=None, fmt="tab", *a, **k):
+            captured.append((garr, outfname, fmt))
+            return tabio.write(garr, outfname, fmt, *a, **k)
+    saved = commands.tabio
+    commands.tabio = _Tab()
+    logging.disable(logging.CRITICAL)
+    try:
+        args = commands.parse_args(argv)
+        args.func(args)
+    finally:
+        logging.disable(logging.NOTSET)
+        commands.tabio = saved
+    if len(captured) != 1 or captured[0][1] != fout or captured[0][2] != "bed4" or not os.path.exists(fout):
+        raise AssertionError(f"cnvkit.py {argv[0]} did not write exactly one bed4 table to the requested output")
+    rows = _read_bed_plain(fout)
+    if rows != T.rows_of(captured[0][0]):
+        raise AssertionError(f"the BED file written by cnvkit.py {argv[0]} is not the table the command computed")
+    return rows
+
+
+def _check_reread(path, rows, what):
+    """the input file reads back (tabio.read_auto, as the command does) as the rows given to the model"""
+    from skgenome import tabio
+    back = T.rows_of(tabio.read_auto(path)) if rows else []
+    if [r[:3] for r in back] != [r[:3] for r in rows] or (rows and len(rows[0]) > 3 and back != rows):
+        raise AssertionError(f"harness: the {what} file does not read back as the case's rows")
+
+
+def _opt(argv, name, value):
+    if name is not None:
+        argv += [name, str(value)]
+
+
+def _anti_cli(i):
+    o = i["cli_opts"]
+    d = tempfile.mkdtemp(dir="/var/tmp", prefix="c12cli")
+    try:
+        ft, fa, fo = (os.path.join(d, n) for n in ("targets.bed", "access.bed", "out.antitarget.bed"))
+        _write_bed(ft, i["tg"])
+        _check_reread(ft, i["tg"], "target")
+        argv = ["antitarget", ft]
+        if i["acc"] is not None:
+            acc = i["acc"] if i.get("acc_gene", True) else [r[:3] for r in i["acc"]]
+            _write_bed(fa, acc, 4 if i.get("acc_gene", True) else 3)
+            _check_reread(fa, acc, "access")
+            assert o["access"]
+            _opt(argv, o["access"], fa)
+        else:
+            assert o["access"] is None
+        assert (o["avg"] is not None or i["avg_f"] == ANTI_AVG_DEFAULT) and (o["min"] is None) == (i["min"] is None)
+        _opt(argv, o["avg"], i["avg_f"])
+        _opt(argv, o["min"], i["min"])
+        _opt(argv, o["out"], fo)
+        return _cnvkit(argv, fo)
+    finally:
+        shutil.rmtree(d, ignore_errors=True)
+
+
+def _target_cli(i):
+    o = i["cli_opts"]
+    d = tempfile.mkdtemp(dir="/var/tmp", prefix="c12cli")
+    try:
+        fb, fn, fo, fp = (os.path.join(d, n) for n in ("baits.bed", "annot.bed", "out.target.bed", "plain.target.bed"))
+        _write_bed(fb, i["baits"])
+        _check_reread(fb, i["baits"], "bait")
+        assert o["avg"] is not None or i["avg_f"] == TARGET_AVG_DEFAULT
+        common = ["--split"] if i["split"] else []
+        _opt(common, o["avg"], i["avg_f"])
+        argv = ["target", fb]
+        if i["annot"] is not None:
+            _write_bed(fn, i["annot"])
+            argv += ["--annotate", fn]
+        if i["short"]:
+            argv += ["--short-names"]
+        out = _cnvkit(argv + common + [o["out"], fo], fo)
+        # the same bins before relabelling: neither --annotate nor --short-names on the command line
+        plain = _cnvkit(["target", fb] + common + [o["out"], fp], fp)
+        return {"rows": out, "plain": plain}
+    finally:
+        shutil.rmtree(d, ignore_errors=True)
+
+
 def run_impl(case):
     from cnvlib import antitarget, target
     op, i = case["op"], case["in"]
+    if i.get("cli"):
+        return _anti_cli(i) if op == "antitarget" else _target_cli(i)
     if op == "antitarget":
         tg = T.ga(i["tg"])
         acc = None
@@ -293,7 +476,7 @@ def run_impl(case):
 
 
 def to_line(case, impl):
-    inp = {k: v for k, v in case["in"].items() if k not in ("avg_f", "acc_gene")}
+    inp = {k: v for k, v in case["in"].items() if k not in ("avg_f", "acc_gene", "cli", "cli_opts")}
     line = {"op": case["op"], "in": inp}
     if not (isinstance(impl, dict) and "__error__" in impl):
         line["impl"] = impl
